@@ -736,8 +736,10 @@ func cmdRun(args []string) int {
 	}
 	os.MkdirAll(filepath.Join(verifDir, "evidence"), 0o755)
 	eb, _ := json.MarshalIndent(ev, "", " ")
-	if err := os.WriteFile(filepath.Join(verifDir, "evidence", prop+".json"), eb, 0o644); err != nil {
-		fail2("%v", err)
+	if os.Getenv("VERIF_NOEVIDENCE") == "" { // set only by /verif/tools/try_patch.sh (trial runs against seeded changes)
+		if err := os.WriteFile(filepath.Join(verifDir, "evidence", prop+".json"), eb, 0o644); err != nil {
+			fail2("%v", err)
+		}
 	}
 	fmt.Printf("property=%s tier=%s runs=%d nontrivial=%d states=%d sim_time=%.0fs wall=%.1fs violations=%d known=%v\n",
 		prop, tier, a.runs, len(a.nontriv), len(a.states), float64(a.simMs)/1000, wall, nviol, a.knownSeen)
